@@ -8,7 +8,7 @@
      syntactic   u == dimensionless          (empty container)        [syn_dimless]
      dimensional u.dimensionality == {} and base-unit factor 1 (radian passes; percent, mV/volt do not
                  since the scaled-argument repair)                    [dim_dimless]
-     semantic    get_base_units equal        (scale and dimensions)   [sem_equiv]
+     semantic    dimensionality and base-unit factor equal (radian ignored) [sem_equiv]
 
    Magnitudes.  traverse computes with pint Quantities, i.e. it carries a magnitude next to the unit
    and reads the exponent of a Pow from it.  [mag] abstracts what the code can hold:
@@ -49,7 +49,9 @@ Fixpoint expand (G : env) (n : nunit) : uvec :=
   end.
 
 Definition syn_dimless (n : nunit) : bool := ueqb n uone.
-Definition sem_equiv (G : env) (a b : nunit) : bool := ueqb (expand G a) (expand G b).
+(* same dimension part (pint's dimension-less base unit radian, generator -8, is not a dimension) and same scale:
+   units.dimensionality equal and base-unit factors close, as in UnitStore.is_equivalent (radian repair) *)
+Definition sem_equiv (G : env) (a b : nunit) : bool := equivb (expand G a) (expand G b).
 Definition dim_dimless (G : env) (a : nunit) : bool :=
   dimensionless_b (expand G a) && is_one (scale (expand G a)).
 Definition lookup_unit (G : env) (u : Z) : option nunit := nthZ (utab G) u.
@@ -158,9 +160,9 @@ Definition infer_prod (rs : list qu) : ures qu :=
 
 (* the exponent is read from the exponent EXPRESSION (F6 repair): float(expr.args[1]) after substituting
    initial values; it is a Python float *)
-Definition infer_pow (rb : qu) (ux : nunit) (xv : xval) : ures qu :=
+Definition infer_pow (G : env) (rb : qu) (ux : nunit) (xv : xval) : ures qu :=
   let (ub, mb) := rb in
-  if negb (syn_dimless ux) then UErr EMustBeDimensionless
+  if negb (dim_dimless G ux) then UErr EMustBeDimensionless      (* _is_dimensionless(exponent): any unit name *)
   else match xv with
        | XSym => UErr EMustBeNumber
        | XUns => UUnsupp
@@ -237,7 +239,7 @@ Fixpoint infer (G : env) (e : expr) {struct e} : ures qu :=
   | EVar v => infer_var G v
   | EAdd l => bindr (go l) (infer_same G)
   | EMul l => bindr (go l) infer_prod
-  | EPow b x => bindr (infer G b) (fun rb => bindr (infer G x) (fun rx => infer_pow rb (fst rx) (expo_infer G x)))
+  | EPow b x => bindr (infer G b) (fun rb => bindr (infer G x) (fun rx => infer_pow G rb (fst rx) (expo_infer G x)))
   | EFn f l => bindr (go l) (infer_fn G f)
   | EDeriv y t _ => bindr (infer G y) (fun ry => bindr (infer G t) (fun rt => infer_div ry rt))
   | ERel _ a b => bindr (infer G a) (fun _ => bindr (infer G b) (fun _ => UErr EBoolean))
